@@ -77,6 +77,64 @@ Definition t1_read (hr0 : Z) (m : list Z) : res (option layout) :=
     | _, _, _, _ => Ok None
     end.
 
+(* ---- the reader after the repairs c08-12 (a read error anywhere inside read_tlv ends the walk: tlv_t None),
+        c08-13 (control TLVs are used only when their length is 3) and c08-15 (the NDEF TLV must lie inside the
+        data area).  c08-14 (no address beyond segment 15) needs no change: the memory has at most 2048 bytes.
+        [t1_read] above is the reader of the tree before these repairs (kept for the C08 development). ---- *)
+Definition t1_dispatch_r (skip : ranges) (t l : Z) (v : list Z) : res tlv_action :=
+  if t =? 0 then Ok (Next skip)
+  else if t =? 1 then
+    (if l =? 3 then do r <- ctl_range lock_byte_range 2048 v; Ok (Next (r :: skip)) else Ok (Next skip))
+  else if t =? 2 then
+    (if l =? 3 then do r <- ctl_range rsvd_byte_range 2048 v; Ok (Next (r :: skip)) else Ok (Next skip))
+  else if t =? 3 then Ok Found
+  else if t =? 254 then Ok Stop
+  else Ok (Next skip).
+Fixpoint t1_walk_r (fuel : nat) (em : list Z) (size : Z) (skip : ranges) (off : Z) (hw : Z)
+  : res (option (Z * ranges * list Z * Z)) :=
+  match fuel with
+  | O => Ok None
+  | S f =>
+    if size <=? off then Ok None
+    else if in_skip skip off then t1_walk_r f em size skip (off + 1) hw
+    else
+      match read_tlv em off skip with
+      | Ok (t, l, v, e) =>
+        match t1_dispatch_r skip t l v with
+        | Ok (Next skip') =>
+          t1_walk_r f em size skip' (off + l + 1 + (if l <? 255 then 1 else 3)) (Z.max hw e)
+        | Ok Found => Ok (Some (off, skip, v, hw))
+        | Ok Stop => Ok None
+        | Err x => Err x | Crash c => Crash c | Hang => Hang
+        end
+      | Err _ => Ok None          (* read_tlv returns (None, None, None): break *)
+      | Crash c => Crash c
+      | Hang => Hang
+      end
+  end.
+Definition t1_reader (hr0 : Z) (m : list Z) : res (option layout) :=
+  if len m <? 120 then Ok None
+  else if negb (Z.shiftr hr0 4 =? 1) then Ok None
+  else
+    match rd m 8, rd m 9, rd m 10, rd m 11 with
+    | Ok b8, Ok b9, Ok b10, Ok b11 =>
+      if negb (b8 =? 225) then Ok None
+      else if negb (Z.shiftr b9 4 =? 1) then Ok None
+      else
+        let size := (b10 + 1) * 8 in
+        let skip0 := [(104, if size =? 120 then 120 else 128)] in
+        do w <- t1_walk_r (S (Z.to_nat size)) m size skip0 12 12;
+        match w with
+        | None => Ok None
+        | Some (off, skip, v, hw) =>
+          let L := {| l_off := off; l_skip := skip; l_cap := get_capacity size off skip;
+                      l_rd := Z.shiftr b11 4 =? 0; l_wr := Z.land b11 15 =? 0;
+                      l_val := v; l_dend := size; l_hw := hw |} in
+          if ndef_fits m L then Ok (Some L) else Ok None
+        end
+    | _, _, _, _ => Ok None
+    end.
+
 Definition classify (r : res (option layout)) : fresh_t :=
   match r with
   | Ok None => NoNdef
@@ -85,11 +143,11 @@ Definition classify (r : res (option layout)) : fresh_t :=
   | Crash c => Failed (Crash c)
   | Hang => Failed Hang
   end.
-Definition t1_fresh (hr0 : Z) (m : list Z) : fresh_t := classify (t1_read hr0 m).
+Definition t1_fresh (hr0 : Z) (m : list Z) : fresh_t := classify (t1_reader hr0 m).
 Definition t1_capacity (hr0 : Z) (m : list Z) : option Z :=
-  match t1_read hr0 m with Ok (Some L) => Some (l_cap L) | _ => None end.
+  match t1_reader hr0 m with Ok (Some L) => Some (l_cap L) | _ => None end.
 Definition t1_layout (hr0 : Z) (m : list Z) : option layout :=
-  match t1_read hr0 m with Ok (Some L) => Some L | _ => None end.
+  match t1_reader hr0 m with Ok (Some L) => Some L | _ => None end.
 
 (* write unit of Type1TagMemoryReader._write_to_tag: 8 byte blocks unless HR0 = x1h *)
 Definition t1_unit (hr0 : Z) : nat := if (Z.shiftr hr0 4 =? 1) && negb (Z.land hr0 15 =? 1) then 8%nat else 1%nat.
@@ -100,7 +158,7 @@ Definition t1_phases (L : layout) (d : list Z) : list phase :=
   [ph_len0 L; ph_data L d; if len d <? 255 then ph_len_short L d else ph_len_long_unrepaired L d].
 
 Definition t1_write (hr0 : Z) (m d : list Z) : res unit * list write :=
-  match t1_read hr0 m with
+  match t1_reader hr0 m with
   | Ok (Some L) =>
     if negb (l_wr L) then (Crash AttributeErr, [])
     else if l_cap L <? len d then (Err ValueError, [])
@@ -123,8 +181,8 @@ Definition t1_free_after_tag (L : layout) : Z :=
 
 (* ---- well-formed layout (DESIGN.md appendix D) ---- *)
 Definition t1_wf_layoutb (hr0 : Z) (m : list Z) : bool :=
-  ((Z.land hr0 15 =? 1) && (len m =? 120) || negb (Z.land hr0 15 =? 1) && (256 <=? len m) && (len m mod 128 =? 0)) &&
-  match t1_read hr0 m with
+  ((Z.land hr0 15 =? 1) && (len m =? 120) || negb (Z.land hr0 15 =? 1) && (256 <=? len m) && (len m <=? 2048) && (len m mod 128 =? 0)) &&
+  match t1_reader hr0 m with
   | Ok (Some L) =>
     l_rd L && l_wr L && (l_dend L <=? len m) && (l_hw L <=? l_off L) && (12 <=? l_off L) && (l_off L + 1 <? l_dend L)
     && negb (in_skip (l_skip L) (l_off L)) && negb (in_skip (l_skip L) (l_off L + 1))
